@@ -20,6 +20,7 @@ type c03Frame struct {
 	Body  string // ok | undecodable | empty
 	Codec string // json | unreg | zero
 	Veto  string
+	Panic string // plugin stage at which the plugin panics ("" = never)
 	Seq   int32
 	Rid   string
 }
@@ -61,6 +62,9 @@ func genC03(t *rapid.T, protos []vt.NamedProto) c03Case {
 			} else {
 				f.Veto = rapid.SampledFrom(callStages).Draw(t, "Veto")
 			}
+		}
+		if f.Veto == "" && f.Kind == "call" && rapid.IntRange(0, 5).Draw(t, "haspanic") == 0 {
+			f.Panic = rapid.SampledFrom([]string{"PostReadCallBody", "PreWriteReply", "PostWriteReply", "PostWriteReply"}).Draw(t, "ppanic")
 		}
 		if i > 0 && rapid.IntRange(0, 5).Draw(t, "dupseq") == 0 {
 			f.Seq = c.Frames[rapid.IntRange(0, i-1).Draw(t, "dupidx")].Seq
@@ -117,7 +121,7 @@ func (f c03Frame) decodes() bool {
 }
 
 func (f c03Frame) handlerExpected() bool {
-	return (f.Kind == "call" || f.Kind == "push") && f.Route == "lib" && f.Veto == "" && f.decodes()
+	return (f.Kind == "call" || f.Kind == "push") && f.Route == "lib" && f.Veto == "" && f.decodes() && f.Panic != "PostReadCallBody"
 }
 
 func (f c03Frame) expectedCode() int32 {
@@ -134,6 +138,17 @@ func (f c03Frame) expectedCode() int32 {
 		return 400
 	case f.Veto == "PostReadCallBody":
 		return 777
+	case f.Panic == "PostReadCallBody":
+		return 500 // a panicking hook before the handler: the call is answered once, with 500
+	}
+	if f.Panic == "PreWriteReply" {
+		// a panicking hook before the reply is written: answered once; 500 unless the handler already failed
+		g := f
+		g.Panic = ""
+		if c := g.expectedCode(); c != 0 {
+			return c
+		}
+		return 500
 	}
 	if len(f.bodyBytes()) == 0 {
 		// zero LibArg: Act "" -> ret; the reply body is marshalled with the
@@ -191,6 +206,9 @@ func (f c03Frame) msg(callRoute, pushRoute string) vt.Msg {
 	m.Meta = []vt.KV{{K: "Rid", V: f.Rid}}
 	if f.Veto != "" {
 		m.Meta = append(m.Meta, vt.KV{K: "Veto", V: f.Veto}, vt.KV{K: "Vcode", V: "777"})
+	}
+	if f.Panic != "" {
+		m.Meta = append(m.Meta, vt.KV{K: "Ppanic", V: f.Panic})
 	}
 	return m
 }
@@ -368,7 +386,7 @@ func countReplies(fr []vt.RawFrame) int {
 
 func (c c03Case) nontrivial() bool {
 	for _, f := range c.Frames {
-		if f.Kind == "call" && (f.Route != "lib" || f.Veto != "" || !f.decodes() || strings.HasPrefix(f.Act, "panic") || f.Act == "badreply" || f.Act == "err") {
+		if f.Kind == "call" && (f.Route != "lib" || f.Veto != "" || f.Panic != "" || !f.decodes() || strings.HasPrefix(f.Act, "panic") || f.Act == "badreply" || f.Act == "err") {
 			return true
 		}
 	}
@@ -376,7 +394,7 @@ func (c c03Case) nontrivial() bool {
 }
 
 func TestC03Dispatch(t *testing.T) {
-	rec := vt.NewRec(t, "C03", "dispatch", "a scripted raw peer sends 1-10 generated frames (type byte, route known/unknown/empty/255 bytes, body decodable/undecodable/empty, codec registered/unregistered/0, veto metadata for a pre-handler plugin, duplicate and extreme seqs; handler behaviour return/error/panic(string,error,*Status)/gated/unmarshalable reply) to a real server session, pipelined in one write or frame by frame, under a generated read chunking; reference model of dispatch decides expected replies per seq and handler invocations per request id; non-trivial = an error path or >=2 pipelined frames; distinct by the frame list")
+	rec := vt.NewRec(t, "C03", "dispatch", "a scripted raw peer sends 1-10 generated frames (type byte, route known/unknown/empty/255 bytes, body decodable/undecodable/empty, codec registered/unregistered/0, veto metadata for a pre-handler plugin, a plugin panicking at PostReadCallBody / PreWriteReply / PostWriteReply, duplicate and extreme seqs; handler behaviour return/error/panic(string,error,*Status)/gated/unmarshalable reply) to a real server session, pipelined in one write or frame by frame, under a generated read chunking; reference model of dispatch decides expected replies per seq and handler invocations per request id; non-trivial = an error path or >=2 pipelined frames; distinct by the frame list")
 	protos := vt.StreamProtos()
 	rapid.Check(t, func(t *rapid.T) {
 		c := genC03(t, protos)
